@@ -18,6 +18,7 @@ L2 ops are handled by `ArvVerif.C14.poolStep` (prefix `pl`), L3 by `protoStep` (
 import ArvVerif.Base.Loop
 import ArvVerif.Model.C14
 import ArvVerif.Model.C14_Pool
+import ArvVerif.Model.C14_Queue
 open ArvVerif ArvVerif.C14
 
 namespace C14Drv
@@ -346,6 +347,170 @@ def runPl (ws ex ops : String) : Option String := do
     pure nexts.flatten) [init]
   pure ("|".intercalate (dedup (finals.map (fun s => joinOr s.out ++ ";" ++ showPool s.pool))))
 
+/-! ### queue cache: executable mirror of container.Queue.Update for the `lq` driver
+
+  lq <api records u:S:prio,…> <ops>
+     up  gated Update() begins (blocks at its first list request)     nx  release the blocked request
+     fu  finish a poll in flight, then a whole ungated Update()       gt<u>  cached state
+     lk<u> ul<u> cn<u>  Lock/Unlock/Cancel (→ k|e)   fg<u>  Forget
+     ec<u> er<u> eo<u>  someone else cancels / runs / completes       ep<u>:<p> priority   es<u>:<p> submit
+   → results;cache entries `u:S:prio`
+  Every request of a poll reads the API records at the moment it is released (`QStep.pollRead`
+  for each record it returns); local updates mark `dontupdate` (`QState.localUpdate`); the end of
+  the poll is `QStep.pollEnd`. -/
+
+structure QRec where
+  state : CState
+  prio : Int
+deriving Inhabited
+
+/-- `fetchAll` pages by offset (its `len(params.Order) == 1` test is never true for the string
+"uuid"), every page being evaluated when its request is served. -/
+inductive QPhase where
+  | mine (offset : Nat)
+  | avail (offset : Nat)
+  | missing (batch : List Nat) (offset : Nat) (found : List Nat) (remaining : List Nat)
+
+structure QX where
+  api : List (Nat × QRec)
+  cache : List (Nat × QRec)
+  dont : Option (List Nat)        -- cq.dontupdate (none = nil)
+  poll : Option (QPhase × List (Nat × QRec))   -- request blocked at the gate, and `next` so far
+  out : List String
+
+def qget (l : List (Nat × QRec)) (u : Nat) : Option QRec := (l.find? (fun p => p.1 == u)).map (·.2)
+def qset (l : List (Nat × QRec)) (u : Nat) (r : QRec) : List (Nat × QRec) :=
+  if l.any (fun p => p.1 == u) then l.map (fun p => if p.1 == u then (u, r) else p) else l ++ [(u, r)]
+def qdel (l : List (Nat × QRec)) (u : Nat) : List (Nat × QRec) := l.filter (fun p => p.1 != u)
+
+def lockedByUs (r : QRec) : Bool := r.state == .locked || r.state == .running
+
+def sortRecs (l : List (Nat × QRec)) : List (Nat × QRec) := l.mergeSort (fun a b => decide (a.1 ≤ b.1))
+
+/-- end of `Update`: merge `next` into the cache -/
+def qFinish (x : QX) (next : List (Nat × QRec)) : QX :=
+  let dont := x.dont.getD []
+  let c1 := next.foldl (fun c p => if dont.contains p.1 then c else qset c p.1 p.2) x.cache
+  let c2 := c1.filter (fun p => dont.contains p.1 || next.any (fun q => q.1 == p.1))
+  { x with cache := c2, dont := none, poll := none }
+
+/-- first request of the `missing` stage, or the end of the poll -/
+def qStartMissing (x : QX) (next : List (Nat × QRec)) : QX :=
+  let missing := (x.cache.filter (fun p => !(next.any (fun q => q.1 == p.1)) && !p.2.state.final)).map (·.1)
+  if missing.isEmpty then qFinish x next
+  else { x with poll := some (.missing missing 0 [] missing, next) }
+
+/-- release the blocked list request -/
+def qNext (x : QX) : QX :=
+  match x.poll with
+  | none => x
+  | some (.mine off, next) =>
+    let items := (sortRecs (x.api.filter (fun p => lockedByUs p.2))).drop off
+    if items.isEmpty then { x with poll := some (.avail 0, next) }
+    else { x with poll := some (.mine (off + items.length), items.foldl (fun n p => qset n p.1 p.2) next) }
+  | some (.avail off, next) =>
+    let items := (sortRecs (x.api.filter (fun p => p.2.state == .queued && decide (p.2.prio > 0)))).drop off
+    if items.isEmpty then qStartMissing x next
+    else { x with poll := some (.avail (off + items.length), items.foldl (fun n p => qset n p.1 p.2) next) }
+  | some (.missing batch off found remaining, next) =>
+    let items := (sortRecs (x.api.filter (fun p => batch.contains p.1))).drop off
+    if !items.isEmpty then
+      { x with poll := some (.missing batch (off + items.length) (found ++ items.map (·.1)) remaining,
+                             items.foldl (fun n p => qset n p.1 p.2) next) }
+    else if found.isEmpty then
+      -- "container not found by controller (deleted?)": drop the batch from the cache
+      let x := { x with cache := x.cache.filter (fun p => !batch.contains p.1) }
+      let rem := remaining.filter (fun u => !batch.contains u)
+      if rem.isEmpty then qFinish x next else { x with poll := some (.missing rem 0 [] rem, next) }
+    else
+      let rem := remaining.filter (fun u => !found.contains u)
+      if rem.isEmpty then qFinish x next else { x with poll := some (.missing rem 0 [] rem, next) }
+
+def qLocal (x : QX) (u : Nat) (r : QRec) : QX :=
+  { x with api := qset x.api u r,
+           cache := if (qget x.cache u).isSome then qset x.cache u r else x.cache,
+           dont := x.dont.map (fun d => if d.contains u then d else d ++ [u]) }
+
+partial def qDrain (x : QX) : QX := if x.poll.isSome then qDrain (qNext x) else x
+
+def showQS : CState → String
+  | .queued => "Q" | .locked => "L" | .running => "R" | .complete => "C" | .cancelled => "X" | .other => "O"
+
+def qOp (x : QX) (op : String) : Option QX := do
+  let kind := (op.take 2).toString
+  let arg := (op.drop 2).toString
+  let res := fun (x : QX) (ok : Bool) => { x with out := x.out ++ [if ok then "k" else "e"] }
+  match kind with
+  | "up" => if arg != "" then none else
+      if x.poll.isSome then pure x else pure { x with dont := some [], poll := some (.mine 0, []) }
+  | "nx" => if arg != "" then none else pure (qNext x)
+  | "fu" => if arg != "" then none else
+      let x := qDrain x
+      pure (qDrain { x with dont := some [], poll := some (.mine 0, []) })
+  | "lk" =>
+    let u ← arg.toNat?
+    match qget x.api u with
+    | some r => if r.state == .queued then pure (res (qLocal x u { r with state := .locked }) true) else pure (res x false)
+    | none => pure (res x false)
+  | "ul" =>
+    let u ← arg.toNat?
+    match qget x.api u with
+    | some r => if r.state == .locked then pure (res (qLocal x u { r with state := .queued }) true) else pure (res x false)
+    | none => pure (res x false)
+  | "cn" =>
+    let u ← arg.toNat?
+    match qget x.api u with
+    | some r => if !r.state.final then pure (res (qLocal x u { r with state := .cancelled }) true) else pure (res x false)
+    | none => pure (res x false)
+  | "fg" =>
+    let u ← arg.toNat?
+    match qget x.cache u with
+    | some r => if r.state.final || (r.state == .queued && r.prio == 0) then pure { x with cache := qdel x.cache u } else pure x
+    | none => pure x
+  | "gt" =>
+    let u ← arg.toNat?
+    pure { x with out := x.out ++ [match qget x.cache u with | some r => showQS r.state | none => "-"] }
+  | "ec" =>
+    let u ← arg.toNat?
+    match qget x.api u with
+    | some r => pure (if r.state.final then x else { x with api := qset x.api u { r with state := .cancelled } })
+    | none => pure x
+  | "er" =>
+    let u ← arg.toNat?
+    match qget x.api u with
+    | some r => pure (if r.state == .locked then { x with api := qset x.api u { r with state := .running } } else x)
+    | none => pure x
+  | "eo" =>
+    let u ← arg.toNat?
+    match qget x.api u with
+    | some r => pure (if r.state == .running then { x with api := qset x.api u { r with state := .complete } } else x)
+    | none => pure x
+  | "ep" =>
+    match arg.splitOn ":" with
+    | [u, p] =>
+      let u ← u.toNat?; let p ← p.toInt?
+      match qget x.api u with
+      | some r => pure { x with api := qset x.api u { r with prio := p } }
+      | none => pure x
+    | _ => none
+  | "es" =>
+    match arg.splitOn ":" with
+    | [u, p] =>
+      let u ← u.toNat?; let p ← p.toInt?
+      pure (if (qget x.api u).isSome then x else { x with api := x.api ++ [(u, ⟨.queued, p⟩)] })
+    | _ => none
+  | _ => none
+
+def runLq (recs ops : String) : Option String := do
+  let api ← (splitList recs).mapM (fun e => match e.splitOn ":" with
+    | [u, st, p] => do pure ((← u.toNat?), (⟨← parseState st, ← p.toInt?⟩ : QRec))
+    | _ => none)
+  let x0 : QX := ⟨api, [], none, none, []⟩
+  let x ← (splitList ops).foldlM qOp x0
+  let x := qDrain x
+  let ents := (sortRecs x.cache).map (fun p => s!"{p.1}:{showQS p.2.state}:{p.2.prio}")
+  pure (joinOr x.out ++ ";" ++ joinOr ents)
+
 end C14Drv
 
 def step (line : String) : String :=
@@ -353,6 +518,7 @@ def step (line : String) : String :=
   let r := match f with
     | ["pl", ws, ex, ops] => C14Drv.runPl ws ex ops
     | "e2e" :: _ => some "e2e-no-model"
+    | ["lq", recs, ops] => C14Drv.runLq recs ops
     | _ => C14Drv.stepL1 f
   match r with
   | some r => r
